@@ -31,4 +31,84 @@ deriving Repr, DecidableEq
 def writtenFile (dlt : Nat) (ws : List Written) : Bytes :=
   encodeFile dlt writerSnaplen (ws.map (fun w => writePacket w.ts w.ser w.adv))
 
+/-! ## the writer as a state machine over call sequences
+
+  `PacketWriter` holds `handle_` / `dumper_`: an open savefile, i.e. its link type and the records dumped so far.
+  The wall clock is an input: every `write(PDU&)` (also through `write(T&)` and `write(begin, end)`) reads
+  `gettimeofday` once; the reading is part of the call. -/
+
+/-- a PDU as the writer sees it: its serialization and its `advertised_size()` -/
+structure Item where
+  ser : Bytes
+  adv : Nat
+deriving Repr, DecidableEq
+
+/-- the open file behind a `PacketWriter` -/
+structure WriterSt where
+  dlt : Nat
+  recs : List Rec
+deriving Repr, DecidableEq
+
+/-- `PacketWriter::write(PDU& pdu)`: `gettimeofday(&tv, 0); write(pdu, tv);` -/
+def WriterSt.writePduNow (w : WriterSt) (now : Timeval) (x : Item) : WriterSt :=
+  { w with recs := w.recs ++ [writePdu now x.ser x.adv] }
+
+/-- `PacketWriter::write(Packet&)` -/
+def WriterSt.writePkt (w : WriterSt) (ts : Timestamp) (x : Item) : WriterSt :=
+  { w with recs := w.recs ++ [writePacket ts x.ser x.adv] }
+
+/-- `write(ForwardIterator start, ForwardIterator end)`:
+    `while (start != end) { write(Utils::dereference_until_pdu(*start++)); }` -/
+def WriterSt.writeRange (w : WriterSt) : List (Timeval × Item) → WriterSt
+  | [] => w
+  | (now, x) :: rest => WriterSt.writeRange (w.writePduNow now x) rest
+
+/-- `PacketWriter& operator=(PacketWriter&& rhs)`: `std::swap(handle_, rhs.handle_); std::swap(dumper_, rhs.dumper_);`
+    — (`*this`, `rhs`) after the call; `none` = no file (`handle_ == 0`) -/
+def writerMoveAssign (dst rhs : Option WriterSt) : Option WriterSt × Option WriterSt := (rhs, dst)
+
+/-- `PacketWriter(PacketWriter&& rhs) : handle_(0), dumper_(0) { *this = std::move(rhs); }` -/
+def writerMoveConstruct (rhs : Option WriterSt) : Option WriterSt × Option WriterSt := writerMoveAssign none rhs
+
+/-- the calls on a live writer -/
+inductive WCall where
+  | pdu (now : Timeval) (x : Item)              -- `write(PDU&)`, `write(T&)` for a (smart) pointer
+  | packet (ts : Timestamp) (x : Item)          -- `write(Packet&)`
+  | range (xs : List (Timeval × Item))          -- `write(begin, end)` over PDUs / pointers / smart pointers
+  | moveConstruct                               -- `PacketWriter n(std::move(w));` — the session goes on with `n`
+  | moveAssignInto (other : Option WriterSt)    -- `other = std::move(w);` — goes on with `other`; `w` (now holding
+                                                --  `other`'s previous file) is destroyed, which closes that file
+
+/-- one call; the second component is a file that got closed by the call (the previous file of `other`) -/
+def WriterSt.call (w : WriterSt) : WCall → WriterSt × Option WriterSt
+  | .pdu now x => (w.writePduNow now x, none)
+  | .packet ts x => (w.writePkt ts x, none)
+  | .range xs => (w.writeRange xs, none)
+  | .moveConstruct => (((writerMoveConstruct (some w)).1).getD w, none)
+  | .moveAssignInto other => (((writerMoveAssign other (some w)).1).getD w, (writerMoveAssign other (some w)).2)
+
+def WriterSt.run (w : WriterSt) : List WCall → WriterSt
+  | [] => w
+  | c :: cs => WriterSt.run (w.call c).1 cs
+
+/-- `~PacketWriter()`: `pcap_dump_close` flushes; the bytes of the file -/
+def WriterSt.close (w : WriterSt) : Bytes := encodeFile w.dlt writerSnaplen w.recs
+
+/-- specification side: what one call asks to be written, in order — (time stamp, PDU) -/
+def WCall.written : WCall → List (Timeval × Item)
+  | .pdu now x => [(now, x)]
+  | .packet ts x => [(ts.toTimeval, x)]
+  | .range xs => xs
+  | .moveConstruct => []
+  | .moveAssignInto _ => []
+
+/-- the frame a reader must see for a PDU written with time stamp `tv` -/
+def frameFor (e : Timeval × Item) : Frame :=
+  { tv := e.1, caplen := e.2.ser.length, len := wrap32 e.2.adv, data := e.2.ser }
+
+/-- a time stamp the savefile format can hold (signed 32-bit seconds and microseconds, no negative values) and a
+    serialization within the declared snapshot length -/
+def Storable (e : Timeval × Item) : Prop :=
+  0 ≤ e.1.sec ∧ e.1.sec < 2147483648 ∧ 0 ≤ e.1.usec ∧ e.1.usec < 2147483648 ∧ e.2.ser.length ≤ writerSnaplen
+
 end Tins.Capture
